@@ -21,6 +21,10 @@ impl Out {
 	}
 }
 
+fn free_all(h: &[u8]) -> bool {
+	h.iter().all(|x| *x == b'F')
+}
+
 fn kinds_menu(n: usize, quick: bool) -> Vec<Vec<bool>> {
 	// all mutexes, all rwlocks, and (n>=2) alternating
 	let mut v = vec![vec![false; n], vec![true; n]];
@@ -400,25 +404,42 @@ fn main() {
 							let tgt = colls.len() - 1;
 							for held in held_patterns(n, &kinds, n <= 2) {
 								let free = held.iter().all(|h| *h == b'F');
-								let mut progs: Vec<Vec<Stmt>> = vec![vec![Stmt::Dbg(tgt), Stmt::IsPoisoned(tgt)]];
+								let mut progs: Vec<Vec<Stmt>> = vec![vec![Stmt::Dbg(tgt, None), Stmt::IsPoisoned(tgt)]];
+								// the payload's own Debug impl panics at leaf x (user code inside a non-acquiring call)
+								for x in 0..n {
+									progs.push(vec![Stmt::Dbg(tgt, Some(x)), Stmt::Dbg(tgt, None), Stmt::Get, session(tgt, Api::Try, true, true, vec![], Exit::Drop)]);
+									if free_all(&held) && rw_all {
+										progs.push(vec![
+											Stmt::Get,
+											session(tgt, Api::Lock, false, true, vec![Step::Dbg(tgt, Some(x)), Step::Read(0)], Exit::Drop),
+											Stmt::Dbg(tgt, None),
+											Stmt::Get,
+										]);
+										progs.push(vec![
+											Stmt::Get,
+											session(tgt, Api::Scoped, false, false, vec![Step::Dbg(tgt, Some(x))], Exit::Ret),
+											Stmt::Dbg(tgt, None),
+										]);
+									}
+								}
 								if free {
 									for c in 0..colls.len() {
 										progs.push(vec![
 											Stmt::Get,
-											session(tgt, Api::Lock, true, true, vec![Step::Dbg(c), Step::Read(0), Step::IsPoisoned(tgt)], Exit::Drop),
-											Stmt::Dbg(c),
+											session(tgt, Api::Lock, true, true, vec![Step::Dbg(c, None), Step::Read(0), Step::IsPoisoned(tgt)], Exit::Drop),
+											Stmt::Dbg(c, None),
 										]);
 										progs.push(vec![
 											Stmt::Get,
-											session(tgt, Api::Scoped, true, false, vec![Step::Dbg(c), Step::Write(0, 9), Step::Dbg(c)], Exit::Ret),
+											session(tgt, Api::Scoped, true, false, vec![Step::Dbg(c, None), Step::Write(0, 9), Step::Dbg(c, None)], Exit::Ret),
 											Stmt::ClearPoison(tgt),
-											Stmt::Dbg(c),
+											Stmt::Dbg(c, None),
 										]);
 										if rw_all {
 											progs.push(vec![
 												Stmt::Get,
-												session(tgt, Api::Lock, false, true, vec![Step::Dbg(c), Step::Read(0)], Exit::Unlock),
-												session(tgt, Api::ScopedTry, false, false, vec![Step::Dbg(c)], Exit::Ret),
+												session(tgt, Api::Lock, false, true, vec![Step::Dbg(c, None), Step::Read(0)], Exit::Unlock),
+												session(tgt, Api::ScopedTry, false, false, vec![Step::Dbg(c, None)], Exit::Ret),
 											]);
 										}
 									}
